@@ -470,6 +470,13 @@ class Run:
 
     def bind_raw(self, K, name, raw, inst, owner):
         srcs = self.engine.sources
+        try:
+            overridden = raw in self.engine.overrides
+        except TypeError:
+            overridden = False
+        if overridden and not isinstance(raw, (types.FunctionType, staticmethod, classmethod, property)):
+            f = VNative(raw)
+            return VBound(f, inst) if inst is not None else f
         if isinstance(raw, types.FunctionType):
             if srcs.is_repo_function(raw) or raw in self.engine.overrides:
                 f = VNative(raw)
